@@ -1,10 +1,95 @@
 import PewDriver.Util
+import PewModel.Sync
 open Lean
 namespace PewDriver.C08
-open PewDriver
+open PewDriver Pew.Sync
 
-def handle (op : String) (_req : Json) : R Json := do
+def parseDir (s : String) : R Dir :=
+  match s with
+  | "lr" => pure .lr
+  | "rl" => pure .rl
+  | "tb" => pure .tb
+  | "bt" => pure .bt
+  | _ => throw s!"bad direction {s}"
+
+def parseLine (j : Json) : R LineSpec := do
+  pure { gap := ← getNat j "gap", gapSamples := ← getNat j "gap_samples", moves := ← getNat j "moves" }
+
+def parsePattern (j : Json) : R Pattern := do
+  pure { seq := ← getInt j "seq", dir := ← getStr j "dir" >>= parseDir, serp := ← getBool j "serp",
+         X := ← getInt j "X", Y := ← getInt j "Y", sxu := ← getNat j "sxu", syu := ← getNat j "syu",
+         circular := ← getBool j "circular", npix := ← getNat j "npix", dwell := ← getNat j "dwell",
+         lines := ← getList parseLine j "lines" }
+
+def parseAcq (j : Json) : R Acq := do
+  pure { patterns := ← getList parsePattern j "patterns", phase := ← getRat j "phase",
+         tailGap := ← getNat j "tail_gap", tailSamples := ← getNat j "tail_samples",
+         skip := ← getNat j "skip", take := ← getNat j "take", t0 := ← getRat j "t0" }
+
+def parseRow (j : Json) : R Row := do
+  pure { time := ← getInt j "time", seq := ← getInt j "seq", x := ← getInt j "x", y := ← getInt j "y",
+         on := ← getBool j "on", spot := ← getStr j "spot" }
+
+def jRow (r : Row) : Json :=
+  jObj [("time", jInt r.time), ("seq", jInt r.seq), ("x", jInt r.x), ("y", jInt r.y),
+        ("on", jBool r.on), ("spot", jStr r.spot)]
+
+def jImg (img : List (List (Option Nat))) : Json := jList (jList (jOpt jNat)) img
+
+def jResult (r : Except String Result) : Json :=
+  match r with
+  | .error e => jObj [("raises", jStr e)]
+  | .ok r => jObj [("shape", jList jNat [r.height, r.width]), ("pixels", jImg r.pixels),
+                   ("origin", jList jInt [r.origin.1, r.origin.2]), ("spot", jList jRat r.spot)]
+
+def parseSel (req : Json) : R (Option (List Int)) := do
+  let s ← fld req "sel"
+  match s with
+  | .null => pure none
+  | .arr _ => some <$> asList asInt s
+  | _ => (fun i => some [i]) <$> asInt s
+
+def handle (op : String) (req : Json) : R Json := do
   match op with
+  | "c08.case" =>
+    -- render the acquisition (specification), run the mechanism on the rendered log and signal
+    let a ← fld req "acq" >>= parseAcq
+    let sel ← parseSel req
+    let squeeze ← getBool req "squeeze"
+    let nanMod ← getNat req "nan_mod"
+    let nanRem ← getNat req "nan_rem"
+    let isnan : Nat → Bool := fun k => nanMod != 0 && k % nanMod == nanRem
+    match render a sel with
+    | none => pure (jObj [("rendered", jBool false)])
+    | some rd =>
+      let hyp := truthHyp a sel
+      let model := sync rd.rows sel rd.times rd.delay isnan squeeze
+      let box := truthBox a sel
+      let full := truthImage a sel box.1 box.2
+      let specImg := if squeeze then (squeezeImg isnan box.2 full) else (full, box.2)
+      let o := truthOrigin a sel
+      let spot : List Rat := match (selectedPatterns a sel).head? with
+        | some p => [(p.sxu : Rat) / 10000, (p.syu : Rat) / 10000]
+        | none => []
+      pure (jObj [("rendered", jBool true), ("hyp", jBool hyp),
+        ("rows", jList jRow rd.rows), ("times", jList jRat rd.times), ("delay", jRat rd.delay),
+        ("model", jResult model),
+        ("spec", jObj [("shape", jList jNat [specImg.1.length, specImg.2]), ("pixels", jImg specImg.1),
+                       ("origin", jList jInt [o.1, o.2]), ("spot", jList jRat spot)])])
+  | "c08.sync" =>
+    -- the mechanism alone on an explicit log and signal
+    let rows ← getList parseRow req "rows"
+    let sel ← parseSel req
+    let ts ← getList asRat req "times"
+    let delay ← getRat req "delay"
+    let squeeze ← getBool req "squeeze"
+    let nanMod ← getNat req "nan_mod"
+    let nanRem ← getNat req "nan_rem"
+    let isnan : Nat → Bool := fun k => nanMod != 0 && k % nanMod == nanRem
+    pure (jObj [("model", jResult (sync rows sel ts delay isnan squeeze))])
+  | "c08.pix" =>
+    let q ← getRat req "q"
+    pure (jObj [("round6trunc", jInt (pixIdx q)), ("trunc", jInt (pixIdxTrunc q))])
   | _ => throw s!"unknown op {op}"
 
 end PewDriver.C08
